@@ -88,3 +88,21 @@ class DetLoop(asyncio.SelectorEventLoop):
         while n < limit and self.step_one():
             n += 1
         return n
+
+
+_DECOY = None
+
+
+def use_loop(loop, foreign=False):
+    """Make `loop` the thread's current event loop - or, with `foreign`, a DIFFERENT loop that is never run, as in a program
+    whose processes live on a loop of their own (`Process(loop=...)`, `LoadSaveContext(loop=...)`) while the calling thread's
+    current loop is another one.  Callbacks run by `step_one()` see the running loop as usual; code called from OUTSIDE a callback
+    (the harness' pause / kill / resume / future().cancel() / unbundle) then sees the decoy: everything a process creates for
+    itself must belong to ITS loop, not to whatever loop happens to be current."""
+    global _DECOY
+    if foreign:
+        if _DECOY is None or _DECOY.is_closed():
+            _DECOY = DetLoop()
+        asyncio.set_event_loop(_DECOY)
+    else:
+        asyncio.set_event_loop(loop)
